@@ -319,7 +319,7 @@ class _ReadSourceGenerator:
                 reads.append(f"_t = {self._map_field(field)}")
                 reads.append("_et = _t.type")
 
-                if issubclass(field_type.type, Int):
+                if issubclass(read_type, Int):
                     reads.append(f"_b = {getter}")
                     item_parser = parser_template.format(type="_et", getter=f"_b[i:i + {field_type.type.size}]")
                     list_comp = f"[{item_parser} for i in range(0, {count}, {field_type.type.size})]"
